@@ -72,8 +72,29 @@ func hdKeyObs(net *chaincfg.Params, k *hdkeychain.ExtendedKey) string {
 	return strings.Join([]string{hs(k.String()), pub, addr, itoa(int(k.Depth())), u64s(uint64(k.ParentFingerprint())), u64s(uint64(childNum)), b2s(k.IsPrivate())}, ",")
 }
 
+// newMasterCallerBuffer calls NewMaster the way a caller with a reusable buffer does: the seed is the front of a larger
+// buffer (spare capacity 256 bytes behind it); afterwards the whole buffer must be what it was (NewMaster writes to no
+// memory of its caller), and it is then overwritten - the key must not live in it.
+func newMasterCallerBuffer(seed []byte, net *chaincfg.Params) (*hdkeychain.ExtendedKey, error, bool) {
+	buf := make([]byte, len(seed)+256)
+	copy(buf, seed)
+	for i := len(seed); i < len(buf); i++ {
+		buf[i] = 0xa5
+	}
+	before := append([]byte{}, buf...)
+	m, err := hdkeychain.NewMaster(buf[:len(seed)], net)
+	written := !bytes.Equal(before, buf)
+	for i := range buf {
+		buf[i] = 0xee
+	}
+	return m, err, written
+}
+
 func hdWalk(net *chaincfg.Params, seed []byte, path []string) (*hdkeychain.ExtendedKey, string) {
-	m, err := hdkeychain.NewMaster(seed, net)
+	m, err, written := newMasterCallerBuffer(seed, net)
+	if written {
+		return nil, "err:NewMaster wrote to the caller's seed buffer"
+	}
 	if err != nil {
 		return nil, "err:" + hdErr(err)
 	}
